@@ -15,13 +15,16 @@ positions and the declared local groups account for exactly the used non-paramet
 namespace Walrus
 namespace C15
 
-/-- **Emitted body = in-order flattening of the built tree**, for any builder history `h`. -/
+/-- **Emitted body = in-order flattening of the built tree**, for any builder history `h`:
+    same instructions in the same order, correct nesting and block types. -/
 theorem builder_emit_is_flatten (m : IdMaps) (h : List BOp) (st : BState) (hrun : brun [] h = some st)
-    (entry : Nat) (ty : SeqTy) (t : TL SeqTy BInstr)
+    (entry : Nat) (ty : LSeqTy) (t : TL LSeqTy LInstr)
     (he : st.toArena.get? entry = some (ty, t.toList)) (hv : ViewL st.toArena t)
-    (ops : List Op) (hf : flattenL m [entry] t = some ops) :
-    ∃ n, ∀ fuel, n ≤ fuel → emitBodyFuel m st.toArena fuel entry = some (ops ++ [⟨"End", []⟩]) :=
-  emitBody_eq_flatten m st.toArena entry ty t he hv ops hf
+    (ops : List (Nat × Op)) (hf : flattenL m [entry] t = some ops) :
+    ∃ n, ∀ fuel, n ≤ fuel → (emitBodyFuel m st.toArena fuel entry).map (·.1) =
+      some (ops.map (·.2) ++ [⟨"End", []⟩]) := by
+  obtain ⟨n, hn⟩ := emitBody_eq_flatten m st.toArena entry ty t he hv ops hf
+  exact ⟨n, fun fuel hf => by rw [hn fuel hf]; simp⟩
 
 theorem idxOf_le {l : List Nat} {s k : Nat} (h : l[k]? = some s) : l.idxOf s ≤ k := by
   induction l generalizing k with
@@ -141,7 +144,7 @@ example : emitLocals [10, 11] (fun l => if l = 12 then "f64" else if l = 14 then
 
 example : (brun [] [.dangling .empty, .push 0 (.leaf ⟨"I32Const", [.num 1]⟩), .dangling .empty,
     .push 1 (.br 0), .insertAt 0 1 (.block 1), .insertAt 0 1 (.leaf ⟨"Drop", []⟩)]).map
-      (fun st => emitBodyFuel {} st.toArena 20 0)
+      (fun st => (emitBodyFuel {} st.toArena 20 0).map (·.1))
     = some (some [⟨"I32Const", [.num 1]⟩, ⟨"Drop", []⟩, ⟨"Block", [.bt .empty]⟩, ⟨"Br", [.ref "l" 1]⟩,
                   ⟨"End", []⟩, ⟨"End", []⟩]) := by decide
 
